@@ -135,4 +135,31 @@ def clientAuthStep (policy : Nat) (cc : Option ClientCert) : Except Nat (Option 
 def clientCAPool (cfgPool rulePool : Option String) (ruleClientAuth : Bool) : Option String :=
   if ruleClientAuth then (match rulePool with | some p => some p | none => cfgPool) else cfgPool
 
+/-! ### lemmas about `lookup` (used by Props.lean) -/
+
+theorem lookup_of_mem_nodup {α : Type} (key : String → String) (l : List (String × α)) (k : String) (v : α)
+    (hnd : (l.map fun p => key p.1).Nodup) (hm : (k, v) ∈ l) :
+    lookup (l.map fun p => (key p.1, p.2)) (key k) = some v := by
+  induction l with
+  | nil => cases hm
+  | cons a rest ih =>
+    simp only [List.map_cons, List.nodup_cons] at hnd
+    unfold lookup
+    simp only [List.map_cons, List.find?_cons]
+    rcases List.mem_cons.mp hm with h | h
+    · subst h; simp
+    · have hne : (key a.1 == key k) = false := by
+        apply beq_false_of_ne
+        intro he
+        exact hnd.1 (he ▸ List.mem_map.mpr ⟨(k, v), h, rfl⟩)
+      simp only [hne]
+      exact ih hnd.2 h
+
+theorem lookup_none_of_forall {α : Type} (l : List (String × α)) (k : String) (h : ∀ p ∈ l, p.1 ≠ k) :
+    lookup l k = none := by
+  unfold lookup
+  rw [List.find?_eq_none.mpr]
+  · rfl
+  · intro p hp; simpa using h p hp
+
 end BfeVerif.C41
